@@ -468,15 +468,27 @@ def _crypt(case, world, out):
             db = world.ledger.db
             orig_lookup = db.is_channel_key_used
             race = {"n": 0, "at": op[1] % max(1, sum(has_secret)), "ran": False, "r": None, "mid": None}
+            intruder = op[3] if len(op) > 3 else "wrong"
+            if intruder == "save" and not (st_["pref"] and st_["mem_pw"] is not None):
+                # no password in memory (wallet came from disk) or encryption switched off: what a save writes while an unlock
+                # is half done is outside "encryption enabled and a password set"
+                out.label("skip:save_mid_unlock_without_password_or_preference")
+                intruder = None
 
-            async def hooked(*a, _orig=orig_lookup, _race=race, _w=w, **k):
-                if _race["n"] == _race["at"] and not _race["ran"]:
+            async def hooked(*a, _orig=orig_lookup, _race=race, _w=w, _intruder=intruder, **k):
+                if _race["n"] == _race["at"] and not _race["ran"] and _intruder:
                     _race["ran"] = True
                     _race["mid"] = [acc.encrypted for acc in wallet.accounts]
-                    try:
-                        _race["r"] = await wallet.unlock(_w["pw"])
-                    except Exception as e:  # noqa: refusing by raising is allowed
-                        _race["r"] = "raised %s" % type(e).__name__
+                    if _intruder == "save":
+                        wallet.save()
+                        check_disk(tag_op + ":save-while-partly-unlocked")
+                        out.label("race_save_partly_unlocked" if any(_race["mid"]) and not all(_race["mid"]) else "race_save_other")
+                        _race["r"] = "saved"
+                    else:
+                        try:
+                            _race["r"] = await wallet.unlock(_w["pw"])
+                        except Exception as e:  # noqa: refusing by raising is allowed
+                            _race["r"] = "raised %s" % type(e).__name__
                 _race["n"] += 1
                 return await _orig(*a, **k)
             db.is_channel_key_used = hooked
@@ -487,7 +499,7 @@ def _crypt(case, world, out):
                 return
             finally:
                 del db.is_channel_key_used
-            if race["ran"]:
+            if race["ran"] and intruder == "wrong":
                 out.label("race_wrong_unlock_ran", "race_partly_unlocked" if any(race["mid"]) and not all(race["mid"])
                           else "race_all_open" if not any(race["mid"]) else "race_none_open")
                 secret_still_locked = any(e and hs for e, hs in zip(race["mid"], has_secret))
@@ -508,7 +520,7 @@ def _crypt(case, world, out):
             out.check(wallet.encryption_password == pw, "password-not-kept-after-unlock", tag_op)
             if any_secret:
                 did["right"] += 1
-                if race["ran"]:
+                if race["ran"] and intruder == "wrong":
                     did["wrong"] += 1
         elif name == "unlock_wrong":
             if not st_["locked"]:
@@ -640,7 +652,9 @@ OPS = [["save"], ["reload"], ["reload"], ["unlock_right"], ["unlock_wrong", 0], 
        ["lock"], ["lock"], ["decrypt"], ["encrypt", 0], ["encrypt", 1],
        # a second wallet_unlock call with a wrong password arrives while the first (right password) is parked in its
        # j-th database look-up (ensure_cache_primed after each decrypted account)
-       ["unlock_race", 0, 0], ["unlock_race", 1, 1], ["unlock_race", 2, 0], ["unlock_race", 3, 2]]
+       ["unlock_race", 0, 0], ["unlock_race", 1, 1], ["unlock_race", 2, 0], ["unlock_race", 3, 2],
+       # ... or another task saves the wallet at that moment (some accounts already open, others still locked)
+       ["unlock_race", 0, 0, "save"], ["unlock_race", 1, 0, "save"], ["unlock_race", 2, 0, "save"]]
 
 
 @st.composite
@@ -1218,7 +1232,7 @@ PARTS = [
          essential=WRONG_KINDS + ("acct_seed", "acct_xprv", "acct_xpub", "gen_single", "gen_hd", "with_channel_keys",
                                   "pw_unicode", "pw_astral", "pw_combining", "pw_long", "reload_locked",
                                   "disk_checked_encrypted", "unlocked_with_right_password", "refused_wrong_password",
-                                  "seed_wordlist", "race_wrong_unlock_ran", "race_partly_unlocked")),
+                                  "seed_wordlist", "race_wrong_unlock_ran", "race_partly_unlocked", "race_save_partly_unlocked")),
     Part("pack", pack_case, run_pack, 60, 800, quick_shards=2, thorough_shards=16,
          essential=("acct_seed", "acct_xprv", "acct_xpub", "pw_unicode", "unpack_wrong:InvalidPasswordError")),
     Part("crash", crash_case, run_crash, 150, 2500, quick_shards=2, thorough_shards=16,
